@@ -3,5 +3,6 @@
 SPECIFICATION TSpec
 CONSTANT Strict = FALSE
 CONSTANT Deviations = {}
+CONSTRAINT StepBound
 POSTCONDITION Accepted
 CHECK_DEADLOCK FALSE
